@@ -7,13 +7,14 @@ pub mod c09;
 pub mod c10;
 pub mod c11;
 pub mod c12;
+pub mod c13;
 pub mod c14;
 pub mod common;
 
 use crate::core::Check;
 
 pub fn registry() -> Vec<&'static dyn Check> {
-    vec![&c01::C01, &c02::C02, &c03::C03, &c05::C05, &c09::C09, &c10::C10, &c11::C11, &c12::C12, &c14::C14]
+    vec![&c01::C01, &c02::C02, &c03::C03, &c05::C05, &c09::C09, &c10::C10, &c11::C11, &c12::C12, &c13::C13, &c14::C14]
 }
 
 pub fn find(id: &str) -> Option<&'static dyn Check> {
